@@ -5,10 +5,11 @@ stack (efp) guarantees:
   * function calls, parentheses and array constants are properly nested;
   * an ARRAYROW start directly inside an array constant that has no open row opens its row;
     anywhere else it is an ordinary function start (efp emits one for every `;` and for a
-    function called ARRAYROW); the one shape not accepted is a row that would open underneath
-    a parenthesis inside an array constant whose row was closed by a stray `)`;
-  * a Function Stop closes the innermost open function call, array row or array constant
-    (with nothing open it is tolerated: efp emits an unmatched `)` that way);
+    function called ARRAYROW); parentheses between the token and its array constant do not matter;
+  * a Function Stop closes the innermost open function call, or the open row / the array constant
+    the token belongs to (again through parentheses — a stray `)` is emitted as a Function Stop and
+    the evaluator then closes the row whatever parentheses are open); with nothing open it is
+    tolerated;
   * an Argument separator may sit anywhere (directly inside a parenthesis it separates nothing).
 Core Lean only: the driver evaluates it on every `ev` line and the harness compares it with
 its own Go implementation.
@@ -49,6 +50,21 @@ def scanA : List FrA → Option Bool
   | .P :: fs => scanA fs
   | .A r :: _ => some r
 
+/-- set the row flag of the array constant `scanA` finds (array rows are transparent to parentheses:
+the evaluator's array bookkeeping never touches an operator stack) -/
+def setInner (b : Bool) : List FrA → List FrA
+  | [] => []
+  | .F :: fs => .F :: fs
+  | .P :: fs => .P :: setInner b fs
+  | .A _ :: fs => .A b :: fs
+
+/-- remove the array constant `scanA` finds -/
+def dropInner : List FrA → List FrA
+  | [] => []
+  | .F :: fs => .F :: fs
+  | .P :: fs => .P :: dropInner fs
+  | .A _ :: fs => fs
+
 /-- one token against the frames.  `inner` = frames opened since the outermost open function
 call (innermost first; its last element is that call), `outer` = frames open outside any
 function call (parentheses and array constants). -/
@@ -61,31 +77,29 @@ def nestStepA (inner outer : List FrA) (t : Tok) : Option (List FrA × List FrA)
     | _ :: _ => some (.A false :: inner, outer)
   | .rstart =>
     -- a row of the array constant the token belongs to, if that constant has no open row
-    -- (`scanA`); otherwise an ordinary function start (repository fix d5de215).  A row that
-    -- would open underneath a parenthesis is not representable in these frames: rejected.
+    -- (`scanA`, through parentheses); otherwise an ordinary function start (repository fix d5de215)
     match scanA (inner ++ outer) with
     | some false =>
       match inner with
-      | .A false :: r => some (.A true :: r, outer)
-      | [] =>
-        match outer with
-        | .A false :: o => some ([], .A true :: o)
-        | _ => none
-      | _ => none
+      | [] => some ([], setInner true outer)
+      | _ :: _ => some (setInner true inner, outer)
     | _ => some (.F :: inner, outer)
   | .fstop =>
+    -- closes the innermost function call; or the open row / the array constant the token belongs
+    -- to (through parentheses: the evaluator closes them whatever parentheses are open); out of
+    -- every function call with no array constant in reach it is tolerated (efp emits an unmatched `)` so)
     match inner with
     | .F :: r => some (r, outer)
-    | .A true :: r => some (.A false :: r, outer)
-    | .A false :: r => some (r, outer)
-    | .P :: _ => none
     | [] =>
-      match outer with
-      | [] => some ([], [])
-      | .A true :: o => some ([], .A false :: o)
-      | .A false :: o => some ([], o)
-      | .P :: _ => if outer.any FrA.isA then none else some ([], outer)
-      | .F :: _ => none
+      match scanA outer with
+      | some true => some ([], setInner false outer)
+      | some false => some ([], dropInner outer)
+      | none => some ([], outer)
+    | x :: r =>
+      match scanA (x :: r) with
+      | some true => some (setInner false (x :: r), outer)
+      | some false => some (dropInner (x :: r), outer)
+      | none => none
   | .arg => some (inner, outer)   -- directly inside a parenthesis it separates nothing (repository fix cdb1ef6)
   | .lparen =>
     match inner with
